@@ -271,7 +271,7 @@ def main():
         hit = caught.get(cn[0], False)
         run.canaries.append(dict(name=cn[0], detected=hit))
         if not hit:
-            run.inconc('canary not detected: %s' % cn[0])
+            run.canary_miss(cn[0], caught)
     numenv.enable(extra_modules=[(adv, None), (acc, None), (m['init_funcs'], None)])
     run.stubs = sorted(set(numenv.STUBS)) + ['exp/tanh/sqrt uninterpreted (equilibrium is an arbitrary function of (r, v))']
     numenv.disable()
